@@ -404,6 +404,9 @@ func genInterleaved(g *tr.G, n int) {
 	if r.Chance(1, 6) {
 		cmp = "r" + pickStyle(r)
 	}
+	if r.Chance(1, 5) {
+		cmp = cmp[:1] + "q" // the comparator reads the tree too
+	}
 	h := newHist(g, cmp, false)
 	β := pickBeta(r)
 	var a int
